@@ -4,6 +4,7 @@
 mod ctx;
 mod eng;
 mod gen;
+mod hnd;
 mod props;
 mod refdl;
 mod rng;
